@@ -1168,6 +1168,7 @@ DLLIMPORT int cfg_opt_setmulti(cfg_t *cfg, cfg_opt_t *opt, unsigned int nvalues,
 {
 	cfg_opt_t old;
 	unsigned int i;
+	char *comment;
 
 	if (!opt || !nvalues) {
 		errno = EINVAL;
@@ -1178,6 +1179,11 @@ DLLIMPORT int cfg_opt_setmulti(cfg_t *cfg, cfg_opt_t *opt, unsigned int nvalues,
 	opt->nvalues = 0;
 	opt->values = NULL;
 
+	/* the annotation belongs to the option, not to the values being replaced */
+	comment = opt->comment;
+	opt->comment = NULL;
+	old.comment = NULL;
+
 	for (i = 0; i < nvalues; i++) {
 		if (cfg_setopt(cfg, opt, values[i]))
 			continue;
@@ -1186,6 +1192,7 @@ DLLIMPORT int cfg_opt_setmulti(cfg_t *cfg, cfg_opt_t *opt, unsigned int nvalues,
 		cfg_free_value(opt);
 		opt->nvalues = old.nvalues;
 		opt->values = old.values;
+		opt->comment = comment;
 		opt->flags &= ~(CFGF_RESET | CFGF_MODIFIED);
 		opt->flags |= old.flags & (CFGF_RESET | CFGF_MODIFIED);
 
@@ -1193,6 +1200,7 @@ DLLIMPORT int cfg_opt_setmulti(cfg_t *cfg, cfg_opt_t *opt, unsigned int nvalues,
 	}
 
 	cfg_free_value(&old);
+	opt->comment = comment;
 	opt->flags |= CFGF_MODIFIED;
 
 	return CFG_SUCCESS;
